@@ -105,7 +105,7 @@ class TOFUDatabase:
 
             # Check if host already exists
             cursor.execute(
-                "SELECT fingerprint FROM known_hosts WHERE hostname = ? AND port = ?",
+                "SELECT fingerprint FROM known_hosts WHERE hostname = ? COLLATE NOCASE AND port = ?",
                 (hostname, port),
             )
             row = cursor.fetchone()
@@ -126,7 +126,7 @@ class TOFUDatabase:
                     """
                     UPDATE known_hosts
                     SET fingerprint = ?, last_seen = ?
-                    WHERE hostname = ? AND port = ?
+                    WHERE hostname = ? COLLATE NOCASE AND port = ?
                     """,
                     (fingerprint, now, hostname, port),
                 )
@@ -155,7 +155,7 @@ class TOFUDatabase:
             cursor = conn.cursor()
 
             cursor.execute(
-                "SELECT fingerprint FROM known_hosts WHERE hostname = ? AND port = ?",
+                "SELECT fingerprint FROM known_hosts WHERE hostname = ? COLLATE NOCASE AND port = ?",
                 (hostname, port),
             )
             row = cursor.fetchone()
@@ -171,7 +171,7 @@ class TOFUDatabase:
                 now = datetime.datetime.now(datetime.timezone.utc).isoformat()
                 cursor.execute(
                     "UPDATE known_hosts SET last_seen = ? "
-                    "WHERE hostname = ? AND port = ?",
+                    "WHERE hostname = ? COLLATE NOCASE AND port = ?",
                     (now, hostname, port),
                 )
                 conn.commit()
@@ -194,7 +194,7 @@ class TOFUDatabase:
             cursor = conn.cursor()
 
             cursor.execute(
-                "DELETE FROM known_hosts WHERE hostname = ? AND port = ?",
+                "DELETE FROM known_hosts WHERE hostname = ? COLLATE NOCASE AND port = ?",
                 (hostname, port),
             )
             conn.commit()
@@ -214,7 +214,7 @@ class TOFUDatabase:
             cursor = conn.cursor()
 
             cursor.execute(
-                "SELECT COUNT(*) FROM known_hosts WHERE hostname = ?",
+                "SELECT COUNT(*) FROM known_hosts WHERE hostname = ? COLLATE NOCASE",
                 (hostname,),
             )
             row = cursor.fetchone()
@@ -235,7 +235,7 @@ class TOFUDatabase:
             cursor = conn.cursor()
 
             cursor.execute(
-                "DELETE FROM known_hosts WHERE hostname = ?",
+                "DELETE FROM known_hosts WHERE hostname = ? COLLATE NOCASE",
                 (hostname,),
             )
             conn.commit()
@@ -293,7 +293,7 @@ class TOFUDatabase:
                 """
                 SELECT hostname, port, fingerprint, first_seen, last_seen
                 FROM known_hosts
-                WHERE hostname = ? AND port = ?
+                WHERE hostname = ? COLLATE NOCASE AND port = ?
                 """,
                 (hostname, port),
             )
@@ -430,7 +430,7 @@ class TOFUDatabase:
                 # changed earlier in this import are seen)
                 cursor.execute(
                     "SELECT fingerprint FROM known_hosts "
-                    "WHERE hostname = ? AND port = ?",
+                    "WHERE hostname = ? COLLATE NOCASE AND port = ?",
                     (hostname, port),
                 )
                 existing = cursor.fetchone()
@@ -466,7 +466,7 @@ class TOFUDatabase:
                             """
                             UPDATE known_hosts
                             SET fingerprint = ?, last_seen = ?
-                            WHERE hostname = ? AND port = ?
+                            WHERE hostname = ? COLLATE NOCASE AND port = ?
                             """,
                             (fingerprint, now, hostname, port),
                         )
